@@ -256,6 +256,7 @@ func registryCheck(cr *checkRun, regName, label string, fulls []string, safetyOn
 				cr.nOK++
 				cr.byBackend[o.Res.Solver]++
 				cr.solverTime += o.Res.Time
+				slowLog(cr.prop.ID, o.Name, o.Res.Solver, o.Res.Time)
 				if len(cr.samples) < 6 && label == "partial" && o.Res.Solver != "simplifier" && o.Kind == "overflow" {
 					cr.samples = append(cr.samples, map[string]string{"obligation": o.Name, "kind": o.Kind, "goal": clipS(o.Goal.String(), 300), "status": "unsat (discharged by " + o.Res.Solver + ")"})
 				}
@@ -355,4 +356,19 @@ func stableOblKey(n string) string {
 		return n[:j+k]
 	}
 	return n
+}
+
+// slowLog: with GOVC_SLOWLOG=<file>, every claimed obligation that needed more than a second is appended to the file
+// (margin audit: a claimed obligation should discharge well under the solver budget).
+func slowLog(prop, name, solver string, t float64) {
+	p := os.Getenv("GOVC_SLOWLOG")
+	if p == "" || t < 1.0 {
+		return
+	}
+	f, err := os.OpenFile(p, os.O_APPEND|os.O_CREATE|os.O_WRONLY, 0o644)
+	if err != nil {
+		return
+	}
+	fmt.Fprintf(f, "%.2f %s %s %s\n", t, prop, solver, name)
+	f.Close()
 }
